@@ -44,6 +44,7 @@ type hookState struct {
 	states    map[uintptr]struct{}
 	pairs     map[uint64]struct{}
 	wantPh    bool
+	scanDone  bool
 	scan      []*verifhook.Node
 	expand    []*verifhook.Node
 }
@@ -119,6 +120,7 @@ func installHooks() {
 			return
 		}
 		if phase == "scan" {
+			hs.scanDone = true
 			hs.scan = roots
 		} else {
 			hs.expand = roots
@@ -474,6 +476,7 @@ func runJob(j *proto.Job) (res *proto.Result) {
 		res.Steps = st
 	}
 	if j.WantPhases {
+		res.ScanDone = hs.scanDone
 		res.Scan, res.Expand = convNodes(hs.scan), convNodes(hs.expand)
 	}
 	// hooks off for the serialisation part (they only matter for the build)
